@@ -244,6 +244,26 @@ def main(tier):
         if parts[0] != parts[1]:
             run.violation("reseeding-one-context-rewrote-another's-stream", {"cfg": cfgp, "program": p, "shared_by": mode, "case": ln,
                                                                              "after_the_other_was_reseeded": parts[0][:300], "alone": parts[1][:300]})
+    # ---- a seeded context that has evaluated nothing yet: its state IS the seed, and RunExpr as its first operation draws what Run draws
+    fl, fm = [], []
+    for _ in range(40 if tier == "thorough" else 12):
+        cfgp, p = gen_prog(r)
+        if ";" in p and ("func" in p or "&" in p):
+            continue
+        sd = f"{r.getrandbits(128):032x}"
+        fl.append(f"freshseed {cfgp},L300000 {sd} {hx(p)}")
+        fm.append((cfgp, p, sd))
+    for (cfgp, p, sd), (ln, g) in zip(fm, run.go_only("freshseed", fl, go_timeout=120)):
+        m = re.match(r"seed0=(\S*) runexpr=(\S+) seed1=(\S*) \| run=(\S+) seed2=(\S*)$", g)
+        if not m:
+            run.count("freshseed.other")
+            continue
+        run.nontriv(("freshseed", p, sd))
+        rep = {"cfg": cfgp, "program": p, "seed": sd, "implementation": g[:400]}
+        if m.group(1) != sd:
+            run.violation("fresh-context-state-is-not-its-seed", rep)
+        elif (m.group(2), m.group(3)) != (m.group(4), m.group(5)):
+            run.violation("RunExpr-first-differs-from-Run", rep)
     return run.finish(
         trusted=["Lean 4.33 kernel", "axioms: propext, Quot.sound (+Classical.choice where simp uses it)",
                  "translator harness/extract (RngSites) — a wrong extraction would show as a failing replay oracle",
